@@ -48,6 +48,18 @@ Theorem C01_auth_acl_rejections : forall i,
 Proof. exact auth_acl_rejections. Qed.
 Print Assumptions C01_auth_acl_rejections.
 
+(* (5) DISTINCT member keys: when the presented key list has no repetition (an access-control service registers key
+       lists without repetition and answers for exactly the presented list - it is asked with that list), an accepted
+       request carries genuine signatures of at least the required number of DISTINCT presented keys, each at its own
+       position *)
+Theorem C01_auth_distinct_signers : forall i o, auth i = Ok o -> List.NoDup (key_args i) ->
+  exists n ktypes ks, a_acl i = AclOk (r_addr o) false false n ktypes /\
+    List.NoDup ks /\ (required n (n_signers i) <= length ks)%nat /\ (1 <= length ks)%nat /\
+    forall x, In x ks -> exists j k sg, nth_error (key_args i) j = Some x /\ nth_error (the_kis i) j = Some k /\
+                                        nth_error (a_sigs i) j = Some sg /\ genuine k (the_msg i) sg.
+Proof. exact auth_distinct_signers. Qed.
+Print Assumptions C01_auth_distinct_signers.
+
 (* non-vacuity: a 2-of-3 account; two genuine signatures and a blank are accepted, one genuine
    signature and two blanks are rejected *)
 Example C01_example :
